@@ -4,7 +4,7 @@ CONSTANTS
   Tag <- Tag2
   RevTag <- Rev2
   Delta = 10
-  DaySteps <- Days4
+  DaySteps <- Days6
   AgeCap = 91
   MaxRefresh = 3
   MaxRestarts = 1
@@ -13,6 +13,7 @@ CONSTANTS
   ReadFaultKinds <- RF_tomb
   AllowSoleRecordLoss = FALSE
   AllowIntraSetCollision = FALSE
+  RelevantSignersOnly = TRUE
 SPECIFICATION Spec
 VIEW View
 INVARIANTS TypeOK TrustOnlyByRFC RevokedNeverAgain RevokedNeverAtFetch
